@@ -417,6 +417,26 @@ func init() {
 		New: "\t\t}\n\t\treturn s.commandInScript(msg)\n\t}()\n\tif err != nil {\n\t\treturn resp.NullValue(), err\n\t}\n\n\tif write {\n\t\tif err := s.writeAOF(msg.Args, &d); err != nil {\n\t\t\treturn resp.NullValue(), err\n\t\t}\n\t}\n\n\treturn res, nil\n}\n\n// Opens",
 		Expect: "R16.deadline-recover", Key: "luaTile38NonAtomic", Why: "a TIMEOUT that fires inside EVALNA kills the process"})
 
+	// ---- R17 ---------------------------------------------------------------
+	mutant(&Mutant{Name: "output-elapsed-unquoted", Props: []string{"C17"}, File: "internal/server/output.go",
+		Old: "`{\"ok\":true,\"output\":\"json\",\"elapsed\":\"` +\n\t\t\t\ttime.Since(start).String() + `\"}`", New: "`{\"ok\":true,\"output\":\"json\",\"elapsed\":` +\n\t\t\t\ttime.Since(start).String() + `}`",
+		Expect: "R17.json-fragments", Key: "cmdOUTPUT", Why: "reverse of the OUTPUT fix: a duration at value position"})
+	mutant(&Mutant{Name: "hooks-name-unescaped", Props: []string{"C17"}, File: fHooks,
+		Old: "buf.WriteString(`\"name\":` + jsonString(hook.Name))", New: "buf.WriteString(`\"name\":\"` + hook.Name + `\"`)",
+		Expect: "R17.json-fragments", Key: "cmdHooks", Why: "a hook named with a double quote breaks the HOOKS reply"})
+	mutant(&Mutant{Name: "type-raw-value", Props: []string{"C17"}, File: fCrud,
+		Old: "`{\"ok\":true,\"type\":` + jsonString(typ) +", New: "`{\"ok\":true,\"type\":` + typ +",
+		Expect: "R17.json-fragments", Key: "cmdTYPE", Why: "a bare word at value position"})
+	mutant(&Mutant{Name: "fence-key-unescaped", Props: []string{"C17", "C05", "C10"}, File: "internal/server/fence.go",
+		Old: "\tbuf = appendJSONString(append(buf, `,\"key\":`...), key)", New: "\tbuf = append(append(append(buf, `,\"key\":\"`...), key...), '\"')",
+		Expect: "R17.json-fragments", Key: "makemsg", Why: "a collection key with a quote breaks every fence notification for it"})
+	mutant(&Mutant{Name: "writeerr-raw-message", Props: []string{"C17"}, File: fServer,
+		Old: "return writeOutput(`{\"ok\":false,\"err\":` + jsonString(errMsg) + `,\"elapsed\":\"`", New: "return writeOutput(`{\"ok\":false,\"err\":\"` + errMsg + `\",\"elapsed\":\"`",
+		Expect: "R17.json-fragments", Key: "handleInputCommand", Why: "error texts echo client arguments: invalid argument '\"' breaks the error reply"})
+	mutant(&Mutant{Name: "scriptflush-no-resp-arm", Props: []string{"C17"}, File: fScripts,
+		Old: "\tcase RESP:\n\t\treturn resp.StringValue(\"OK\"), nil\n\t}\n\treturn resp.SimpleStringValue(\"\"), nil\n}\n\nfunc (s *Server) commandInScript", New: "\tcase Telnet:\n\t\treturn resp.StringValue(\"OK\"), nil\n\t}\n\treturn resp.SimpleStringValue(\"\"), nil\n}\n\nfunc (s *Server) commandInScript",
+		Expect: "R17.both-modes", Key: "cmdScriptFlush", Why: "RESP clients get an empty reply to SCRIPT FLUSH"})
+
 	// ---- neutral variants --------------------------------------------------
 	mutant(&Mutant{Name: "neutral-rename-write-flag", Props: []string{"C03", "C07", "C15"}, Neutral: true, File: fScripts,
 		Old: "func (s *Server) luaTile38NonAtomic(msg *Message) (resp.Value, error) {\n\tvar write bool\n", New: "func (s *Server) luaTile38NonAtomic(msg *Message) (resp.Value, error) {\n\tvar write bool\n\t_ = \"neutral\"\n",
